@@ -1020,3 +1020,27 @@ func (env *funcEnv) expandCallsFields() {
 	}
 	env.facts = out
 }
+
+// LitEffects analyses a func literal as a function of its own parameters:
+// stores visible through a parameter keep that parameter as root; stores to
+// captured variables are reported with an unknown root.
+func (e *effectsEngine) LitEffects(pkg *packages.Package, lit *ast.FuncLit) ([]WriteFact, []types.Object) {
+	env := &funcEnv{eng: e, info: pkg.TypesInfo, pkg: pkg, params: map[types.Object]int{}, alias: map[types.Object]accessPath{}, lit: lit, body: lit.Body}
+	var params []types.Object
+	i := 0
+	for _, fl := range lit.Type.Params.List {
+		if len(fl.Names) == 0 {
+			i++
+			params = append(params, nil)
+			continue
+		}
+		for _, nm := range fl.Names {
+			o := pkg.TypesInfo.Defs[nm]
+			env.params[o] = i
+			params = append(params, o)
+			i++
+		}
+	}
+	env.walk(lit.Body)
+	return dedupFacts(env.facts), params
+}
